@@ -598,4 +598,97 @@ theorem getRoute_sound (sat : Nat → Bytes → Bool) (R : List Route) (hR : Nor
       obtain ⟨r, hr, hrm, _, hlf, hmatch⟩ := walk_sound sat R hOK m _ _ _ _ _ h
       exact ⟨r, hr, hrm, hlf, hmatch⟩
 
+
+theorem lastSome_eq_none {α β} (f : α → Option β) (l : List α) (h : lastSome f l = none) : ∀ a ∈ l, f a = none := by
+  induction l with
+  | nil => simp
+  | cons b rest ih =>
+    simp only [lastSome] at h
+    cases hr : lastSome f rest with
+    | some v => rw [hr] at h; simp at h
+    | none =>
+      rw [hr] at h
+      intro a ha
+      simp only [List.mem_cons] at ha
+      rcases ha with rfl | ha
+      · simpa using h
+      · exact ih hr a ha
+
+/-- **Priority of `getRoute`, without any guard**: no registered route of the method whose pattern matches
+the path beats the route `getRoute` returns. -/
+theorem getRoute_max (sat : Nat → Bytes → Bool) (R : List Route) (hR : NormalR R) (m : Bytes) (path : Bytes)
+    (hp : path.head? = some '/') (lf : Leaf) (ctx : Ctx)
+    (h : okOf (getRouteGen false sat (treeFor R m) path Ctx.fresh) = some (lf, ctx)) :
+    ∃ r ∈ R, r.method = m ∧ lf = leafOf r ∧
+      ∀ r' ∈ R, r'.method = m → (matchPat (cutAny path).trail r'.pat (cutAny path).segs).isSome = true →
+        better r'.pat r.pat = false := by
+  have hNP : ∀ r ∈ R, NormalPat r.text r.pat := fun r hr => (hR r hr).1
+  have hOK : ∀ r ∈ R, patOK r.pat := fun r hr => normal_patOK _ _ (hNP r hr)
+  have hpne : path ≠ [] := by intro e; rw [e] at hp; simp at hp
+  by_cases hroot : path = ['/']
+  · -- the root: every matching pattern is the root pattern
+    obtain ⟨r, hr, hrm, hlf, hmatch⟩ := getRoute_sound sat R hR m path hp lf ctx h
+    refine ⟨r, hr, hrm, hlf, ?_⟩
+    subst hroot
+    have hcut : cutAny ['/'] = ⟨[], false⟩ := by simp [cutAny]
+    rw [hcut] at hmatch ⊢
+    intro r' _ _ hm'
+    obtain ⟨h1, _⟩ := matchPat_nil_segs _ _ hm'
+    obtain ⟨h2, _⟩ := matchPat_nil_segs _ _ hmatch
+    rw [h1, h2]; rfl
+  · have hnr : ¬ (path = ['/'] ∨ path = []) := by intro h; rcases h with h | h <;> contradiction
+    have hsegs := cutAny_segs_ne path hp hroot
+    have hparse := parsePath_eq path hroot hpne
+    rw [treeFor_char R hNP m] at h
+    cases hs : getStatic path (staticsOf R m) with
+    | some lf' =>
+      -- a parameter-free route: nothing beats it
+      have hget : getRouteGen false sat ⟨nodesOf (entriesOf R m), staticsOf R m⟩ path Ctx.fresh =
+          (some lf', Ctx.fresh) := by simp only [getRouteGen, hnr, if_false, hs]
+      rw [hget] at h
+      simp only [okOf, Option.map_some, Option.some.injEq, Prod.mk.injEq] at h
+      unfold staticsOf at hs
+      rw [getStatic_fold] at hs
+      have hs' : lastSome (fun r : Route => if r.text = path then some (leafOf r) else none)
+          (R.filter fun r => r.method = m && !inTree r) = some lf' := by
+        cases hl : lastSome (fun r : Route => if r.text = path then some (leafOf r) else none)
+            (R.filter fun r => r.method = m && !inTree r) with
+        | none => rw [hl] at hs; simp [getStatic] at hs
+        | some v => rw [hl] at hs; simpa using hs
+      obtain ⟨r, hr, hfr⟩ := lastSome_some _ _ _ hs'
+      have hr' := List.mem_filter.mp hr
+      simp only [Bool.and_eq_true, decide_eq_true_eq, Bool.not_eq_true'] at hr'
+      by_cases ht : r.text = path
+      · simp only [ht, if_true, Option.some.injEq] at hfr
+        obtain ⟨hss, _⟩ := notInTree r hr'.2.2
+        refine ⟨r, hr'.1, hr'.2.1, by rw [← h.1, ← hfr], ?_⟩
+        intro r' _ _ _
+        exact better_static_left _ _ hss
+      · simp [ht] at hfr
+    | none =>
+      have hget : getRouteGen false sat ⟨nodesOf (entriesOf R m), staticsOf R m⟩ path Ctx.fresh =
+          walkGen false sat (nodesOf (entriesOf R m)) (cutAny path).trail [] Ctx.fresh (cutAny path).segs := by
+        simp only [getRouteGen, hnr, if_false, hs, hparse]
+      rw [hget] at h
+      obtain ⟨r, hr, hrm, _, hlf, _, hmax⟩ := walk_sound_max sat R hOK m _ _ _ _ _ h
+      refine ⟨r, hr, hrm, hlf, ?_⟩
+      intro r' hr' hrm' hm'
+      by_cases hrt' : inTree r' = true
+      · exact hmax r' hr' hrm' hrt' hm'
+      · -- a parameter-free route that matches would have been found in `staticPaths`
+        exfalso
+        have hrt'' : inTree r' = false := by simpa using hrt'
+        obtain ⟨hss, hsne⟩ := notInTree r' hrt''
+        have htx := (static_text_iff r' (hNP r' hr') hss hsne path hp).mpr hm'
+        unfold staticsOf at hs
+        rw [getStatic_fold] at hs
+        have hnone : lastSome (fun r : Route => if r.text = path then some (leafOf r) else none)
+            (R.filter fun r => r.method = m && !inTree r) = none := by
+          cases hl : lastSome (fun r : Route => if r.text = path then some (leafOf r) else none)
+              (R.filter fun r => r.method = m && !inTree r) with
+          | none => rfl
+          | some v => rw [hl] at hs; simp at hs
+        have := lastSome_eq_none _ _ hnone r' (List.mem_filter.mpr ⟨hr', by simp [hrm', hrt'']⟩)
+        simp [htx] at this
+
 end Rivaas.RadixL
